@@ -702,6 +702,9 @@ def h_concatenate(ip, st, a, kw, node):
             rs.append(ia[2][0] if ia is not None and ia[0] == 'app' and ia[1] == 'm:ravel' and len(ia[2]) == 1 else None)
         if all(r is not None for r in rs):
             return app('append', rs[0], rs[1])
+    if isinstance(seq, Tup) and len(seq) == 2 and len(a) == 1 and set(kw) == {'axis'} and kw['axis'] == NONE \
+            and all(isinstance(i, Poly) for i in seq.items):
+        return app('append', seq.items[0], seq.items[1])        # concatenate((x, y), axis=None) flattens both: append(x, y)
     return h_generic('concatenate')(ip, st, a, kw, node)
 
 
